@@ -64,6 +64,12 @@ def run(ctx):
             base_ok = pv[2][0] is fld(index_term(ls.lh[ck_[0]] if ck_ else selff('chains'), idx), 'proposal')
             ctx.check('C08.R8.4.own', anchor, 'proposal-base', base_ok, expected='chain i re-seeds its own proposal', found=show(pv[2][0]), sp=b['sp'],
                       why='the re-seeded proposal must be the chain\'s own object')
+    # the library proposal turns distinct seeds into distinct streams: set_seed seeds the generator with the seed itself (a clamp such
+    # as seed.max(1) maps two chains' seeds to one stream when the per-chain seeds wrap around) -- decided for C15 as well
+    from . import C15
+    got = ctx.borrow(C15.isotropic, lambda oid: oid.startswith('C15.iso.set_seed'))
+    if not got:
+        ctx.unknown('C08.R8.4.proposal_seed', 'IsotropicGaussian::set_seed', 'injective', why='the obligation on the library proposal\'s set_seed could not be instantiated')
     # ---------------------------------------------------------------- R8.2 / R8.3 constructors
     for sampler, nm, chain_adt in (('MH', 'MH.new', 'adt:metropolis_hastings::MHMarkovChain'), ('NUTS', 'NUTS.new', 'adt:nuts::NUTSChain')):
         b = ctx.anchor(nm, name='new', self_head={'MH': 'metropolis_hastings::MetropolisHastings', 'NUTS': 'nuts::NUTS'}[sampler], container='inherent')
